@@ -81,7 +81,9 @@ func genDegenerateSchema() spec.Schema {
 }
 
 func genAnyInstance() interface{} {
-	switch verifChoose(17) {
+	switch verifChoose(18) {
+	case 17: // heterogeneous array: scalars first, then composite values (next to uniqueItems)
+		return []interface{}{1.0, "x", map[string]interface{}{"a": 1.0}, []interface{}{1.0}, 1.0}
 	case 14: // objects that look like schemas: items next to a type that is a list holding non-strings
 		return map[string]interface{}{"items": []interface{}{}, "type": []interface{}{1.0, "array"}}
 	case 15:
